@@ -15,10 +15,42 @@ type (
 	WaitGroup = sync.WaitGroup
 	Once      = sync.Once
 	Map       = sync.Map
-	Pool      = sync.Pool
 	Cond      = sync.Cond
 	Locker    = sync.Locker
 )
+
+// Pool is a deterministic stand-in for sync.Pool: a plain stack that is never cleared by the
+// garbage collector and does not depend on which P the caller runs on (sync.Pool's reuse pattern
+// varies with GOMAXPROCS and GC timing, which would make the number of executed statements, and
+// with it the schedule, differ between two runs of one seed).
+type Pool struct {
+	New   func() any
+	mu    sync.Mutex
+	items []any
+}
+
+func (p *Pool) Get() any {
+	p.mu.Lock()
+	if n := len(p.items); n > 0 {
+		x := p.items[n-1]
+		p.items = p.items[:n-1]
+		p.mu.Unlock()
+		return x
+	}
+	p.mu.Unlock()
+	if p.New != nil {
+		return p.New()
+	}
+	return nil
+}
+
+func (p *Pool) Put(x any) {
+	p.mu.Lock()
+	if len(p.items) < 64 {
+		p.items = append(p.items, x)
+	}
+	p.mu.Unlock()
+}
 
 func NewCond(l Locker) *Cond { return sync.NewCond(l) }
 
